@@ -104,6 +104,13 @@ TARGETS = {
                           "entries_after": dict(params={"index": "Z"}, pure=True, ret="list LogEntry"),
                           "last_index": dict(pure=True), "last_term": dict(pure=True),
                           "advance_commit": dict(params={"new_commit_index": "Z"}, ret="list LogEntry")}),
+            # the majority every Raft safety proof rests on (peers = the other nodes, as ids)
+            # _try_advance_commit: the leader's commit rule.  _apply_committed (state machine, futures, counters) touches none
+            # of the declared fields and is declared a no-op here; it is hand-modelled (apply_committed) and tied by correspondence
+            dict(file="happysimulator/components/consensus/raft.py", cls="RaftNode",
+                 fields={"_peers": "list Z", "_log": "Log", "_match_index": "dict", "_current_term": "Z"},
+                 noop_methods=["_apply_committed"],
+                 methods={"quorum_size": dict(pure=True), "_try_advance_commit": dict(ret="list Z")}),
         ],
     ),
     # queue items are their integer ids (the policies never look inside an item, except PriorityQueue through
@@ -128,6 +135,8 @@ TARGETS = {
         classes=[
             dict(file="happysimulator/components/consensus/paxos.py", cls="Ballot", dataclass_order=True,
                  fields={"number": "Z", "node_id": "Z"}, methods={}),
+            dict(file="happysimulator/components/consensus/paxos.py", cls="PaxosNode", fields={"_peers": "list Z"},
+                 methods={"quorum_size": dict(pure=True)}),
         ],
     ),
     # the WAL never looks at a value or a timestamp: both are opaque integers here
